@@ -7,6 +7,7 @@ import (
 	"strconv"
 	"strings"
 
+	"github.com/thomasjungblut/go-sstables/recordio"
 	"github.com/thomasjungblut/go-sstables/simpledb"
 )
 
@@ -97,6 +98,9 @@ func gensOf(names []string) (string, error) {
 func runDb(res *Result, drv *Driver, seed uint64, n int, tier string, only int) error {
 	res.Rule = "session programs: Put/Delete/Get through string and byte flavours incl. rejected calls, forced rotations, flush waits, compaction cycles (hook), " +
 		"close + reopen with other options (memstore size, threshold, max size, ratio, buffers); every key of the universe is read after every step; " +
+		"40 % of the sessions add rejected lifecycle calls at every position (any call before Open on the handle that is then opened, Open on the open handle, " +
+		"any call / Open / Close on the closed handle); 6 % choose a log flavour per (re-)open (sync, async, direct I/O + sync = every " +
+		"Put/Delete rejected by the log: oracle-only, the model is not told about those calls) and end with a restart under default options; " +
 		"non-trivial = at least one flush and one accepted write; distinct = distinct step strings"
 	for idx := 0; idx < n; idx++ {
 		if only >= 0 && idx != only {
@@ -109,6 +113,21 @@ func runDb(res *Result, drv *Driver, seed uint64, n int, tier string, only int) 
 	return nil
 }
 
+// O_DIRECT on the file system the sessions run on (checked once)
+var dbDirectIO struct{ checked, ok bool }
+
+func dbDirectIOAvailable() bool {
+	if !dbDirectIO.checked {
+		ok, err := recordio.IsDirectIOAvailable()
+		dbDirectIO.checked, dbDirectIO.ok = true, ok && err == nil
+	}
+	return dbDirectIO.ok
+}
+
+func dbIsNotOpen(err error) bool {
+	return errors.Is(err, simpledb.ErrNotOpenedYet) || errors.Is(err, simpledb.ErrAlreadyClosed)
+}
+
 func dbOne(res *Result, drv *Driver, r *Rng, idx int, tier string) error {
 	dir, err := os.MkdirTemp("", "verif-db-")
 	if err != nil {
@@ -116,6 +135,51 @@ func dbOne(res *Result, drv *Driver, r *Rng, idx int, tier string) error {
 	}
 	defer os.RemoveAll(dir)
 	res.Cases++
+
+	// second generator state for the lifecycle / log-flavour dimensions (C17): sessions that use neither draw
+	// exactly what they drew before these dimensions existed
+	r2 := &Rng{s: r.s ^ 0x6c6966656379636c}
+	r2.Next()
+	// lifecycle sessions: rejected calls at every position of a handle's life (before Open, on the open handle,
+	// after Close) - the same handle is then opened / a new one is opened and used normally
+	lifecycle := r2.Chance(40)
+	// log-flavour sessions: every (re-)open chooses how the write-ahead log is written: synchronous (default),
+	// asynchronous, or direct I/O + synchronous - the last one cannot append, so EVERY Put / Delete of both
+	// flavours is rejected with an error by the log.  (A direct-I/O log writes a whole 4 MiB block per rotation:
+	// these sessions are kept few; direct I/O + asynchronous is exercised by the handles stream.)
+	walSession := r2.Chance(6)
+	if lifecycle {
+		res.Stat("case:lifecycle-rejected-calls")
+	}
+	if walSession {
+		res.Stat("case:log-flavours")
+		if !dbDirectIOAvailable() {
+			res.Stat("case:log-flavours:direct-io-unavailable-flavour-skipped")
+		}
+	}
+	walMode := "sync"
+	pickWal := func(first bool) {
+		pReject := 65 // a rejecting phase mostly follows an accepting one (data to overwrite / delete is there) ...
+		if first {
+			pReject = 40
+		} else if walMode == "direct-sync" {
+			pReject = 15 // ... and is mostly followed by an accepting one
+		}
+		walMode = "sync"
+		if !walSession {
+			return
+		}
+		switch k := r2.Intn(100); {
+		case k < pReject:
+			walMode = "direct-sync"
+		case k < pReject+(100-pReject)/3:
+			walMode = "async"
+		}
+		if strings.HasPrefix(walMode, "direct") && !dbDirectIOAvailable() {
+			walMode = "sync"
+		}
+	}
+	pickWal(true)
 
 	// key universe: short, long, non-UTF-8
 	nk := 3 + r.Intn(5)
@@ -166,15 +230,123 @@ func dbOne(res *Result, drv *Driver, r *Rng, idx int, tier string) error {
 		res.Stat("case:lineage-excluding-oldest")
 	}
 	opened := false
+	dead := false // the open handle refuses to work: the session cannot go on
+
+	// C17 book-keeping: what the rejected calls of this session would have changed had they taken effect
+	// (key -> readings), and which kinds of call were rejected on the current handle before it was opened
+	rejEffects := map[string][]string{}
+	logRejected := 0
+	var handleRejected []string
+	noteRejected := func(k []byte, reading string) {
+		if len(k) > 0 {
+			rejEffects[string(k)] = append(rejEffects[string(k)], reading)
+		}
+	}
 
 	emit := func(step, result string) {
 		steps = append(steps, step)
 		impl = append(impl, result)
 	}
+	// a call through the open handle failed / returned something else than the reference
+	failed := func(prop, sig, detail string, err error) {
+		if dbIsNotOpen(err) && len(handleRejected) > 0 {
+			// the handle was opened successfully after rejected calls and now claims not to be open
+			what := "rejected-calls-before-open"
+			if handleRejected[0] == "close" {
+				what = "rejected-close-before-open"
+			}
+			res.Violate(idx, "C17", "open-handle-unusable:"+what, fmt.Sprintf("rejected on the fresh handle: %s; then Open() = nil; then %s: %s", strings.Join(handleRejected, "+"), sig, detail), strings.Join(trace, " "))
+			dead = true
+			return
+		}
+		res.Violate(idx, prop, sig, detail, strings.Join(trace, " "))
+	}
+	// rejected calls on a handle that is not open ("fresh": never opened, "closed"): all of them are errors and
+	// none may change anything; the model answers `notopen` in its not-open / closed state as well
+	probeNotOpen := func(d *simpledb.DB, state string) []string {
+		seen := map[string]bool{}
+		for i, n := 0, 1+r2.Intn(3); i < n; i++ {
+			k := keys[r2.Intn(len(keys))]
+			var err error
+			var kind string
+			switch c := r2.Intn(100); {
+			case c < 40:
+				kind = "close"
+				err = safely(d.Close)
+				emit("close", dbRes(err))
+			case c < 50:
+				kind = "get"
+				_, err = d.Get(string(k))
+				emit("g:"+gb(k), dbRes(err))
+			case c < 60:
+				kind = "get"
+				_, err = d.GetBytes(k)
+				emit("g:"+gb(k), dbRes(err))
+			case c < 70:
+				kind = "put"
+				err = d.Put(string(k), "x")
+				emit("ps:"+gb(k)+":78:0", dbRes(err))
+				noteRejected(k, "val:78")
+			case c < 80:
+				kind = "put"
+				err = d.PutBytes(k, []byte{0x79})
+				emit("pb:"+gb(k)+":79:0", dbRes(err))
+				noteRejected(k, "val:79")
+			case c < 90:
+				kind = "delete"
+				err = d.Delete(string(k))
+				emit("ds:"+gb(k), dbRes(err))
+				noteRejected(k, "notfound")
+			default:
+				kind = "delete"
+				err = d.DeleteBytes(k)
+				emit("db:"+gb(k), dbRes(err))
+				noteRejected(k, "notfound")
+			}
+			res.Evaluations++
+			res.Stat("lifecycle:" + kind + "-on-" + state + "-handle")
+			trace = append(trace, fmt.Sprintf("%s.%s(%x)=%s", state, kind, k, dbRes(err)))
+			if err != nil {
+				seen[kind] = true
+			}
+		}
+		var kinds []string
+		for _, k := range []string{"close", "delete", "get", "put"} {
+			if seen[k] {
+				kinds = append(kinds, k)
+			}
+		}
+		return kinds
+	}
 	openDb := func() error {
-		d, err := simpledb.NewSimpleDB(dir, opts.extra()...)
+		mk := func() (*simpledb.DB, error) {
+			o := opts.extra()
+			switch walMode {
+			case "async":
+				o = append(o, simpledb.EnableAsyncWAL())
+			case "direct-sync":
+				o = append(o, simpledb.EnableDirectIOWAL())
+			}
+			return simpledb.NewSimpleDB(dir, o...)
+		}
+		d, err := mk()
 		if err != nil {
 			return err
+		}
+		handleRejected = nil
+		if lifecycle && r2.Chance(60) {
+			kinds := probeNotOpen(d, "fresh")
+			if r2.Chance(20) {
+				// that handle is dropped without ever being opened
+				res.Stat("lifecycle:fresh-handle-dropped-after-rejected-calls")
+				trace = append(trace, "drop-handle")
+				if d, err = mk(); err != nil {
+					return err
+				}
+			} else {
+				handleRejected = kinds
+				res.Stat("lifecycle:open-after-rejected-calls-on-same-handle")
+			}
 		}
 		if err := d.Open(); err != nil {
 			res.Violate(idx, "C01", "open-failed", err.Error(), strings.Join(trace, " "))
@@ -183,7 +355,12 @@ func dbOne(res *Result, drv *Driver, r *Rng, idx int, tier string) error {
 		db = d
 		opened = true
 		emit(opts.modelTok(), "-")
-		trace = append(trace, fmt.Sprintf("open(mem=%d,thr=%d,max=%d,ratio=%d/%d)", opts.memstore, opts.threshold, opts.maxSize, opts.ratioNum, opts.ratioDen))
+		if walSession {
+			res.Stat("open:log=" + walMode)
+			trace = append(trace, fmt.Sprintf("open(mem=%d,thr=%d,max=%d,ratio=%d/%d,log=%s)", opts.memstore, opts.threshold, opts.maxSize, opts.ratioNum, opts.ratioDen, walMode))
+		} else {
+			trace = append(trace, fmt.Sprintf("open(mem=%d,thr=%d,max=%d,ratio=%d/%d)", opts.memstore, opts.threshold, opts.maxSize, opts.ratioNum, opts.ratioDen))
+		}
 		return nil
 	}
 	if err := openDb(); err != nil {
@@ -195,6 +372,9 @@ func dbOne(res *Result, drv *Driver, r *Rng, idx int, tier string) error {
 	// reads every key of the universe (alternating flavours) and checks it against the reference map
 	readAll := func(ctx string) {
 		for i, k := range keys {
+			if dead {
+				return
+			}
 			var got []byte
 			var err error
 			if (i+len(steps))%2 == 0 {
@@ -218,7 +398,20 @@ func dbOne(res *Result, drv *Driver, r *Rng, idx int, tier string) error {
 				if ctx == "compact" {
 					prop = "C06"
 				}
-				res.Violate(idx, prop, "get-mismatch:after-"+ctx, fmt.Sprintf("Get(%x): want %s got %s", k, want, out), strings.Join(trace, " "))
+				detail := fmt.Sprintf("Get(%x): want %s got %s", k, want, out)
+				tookEffect := false
+				for _, e := range rejEffects[string(k)] {
+					tookEffect = tookEffect || e == out
+				}
+				if tookEffect {
+					// the key reads as a call that returned an error would have left it
+					res.Violate(idx, "C17", "rejected-call-took-effect:seen-after-"+ctx, detail, strings.Join(trace, " "))
+					if ctx != "compact" {
+						emit("g:"+gb(k), out)
+						continue
+					}
+				}
+				failed(prop, "get-mismatch:after-"+ctx, detail, err)
 			}
 			emit("g:"+gb(k), out)
 		}
@@ -232,12 +425,65 @@ func dbOne(res *Result, drv *Driver, r *Rng, idx int, tier string) error {
 		g, err := gensOf(names)
 		return "t:" + g, sizes, err
 	}
+	rotate := func() {
+		if err := db.VerifRotate(); err != nil {
+			failed("C01", "rotate-failed", err.Error(), err)
+		}
+		emit("rot", "-")
+		flushes++
+		trace = append(trace, "rotate")
+	}
+	// Close of the open handle; afterwards, in lifecycle sessions, rejected calls on the closed handle
+	closeDb := func(k []byte) bool {
+		err := safely(db.Close)
+		emit("close", dbRes(err))
+		res.Evaluations++
+		if err != nil {
+			failed("C01", "close-failed", err.Error(), err)
+			opened = false
+			return false
+		}
+		opened = false
+		trace = append(trace, "close")
+		// a closed handle rejects calls
+		if r.Chance(30) {
+			_, gerr := db.Get(string(k))
+			emit("g:"+gb(k), dbRes(gerr))
+			perr := db.Put(string(k), "x")
+			emit("ps:"+gb(k)+":78:0", dbRes(perr))
+			noteRejected(k, "val:78")
+		}
+		if lifecycle && r2.Chance(60) {
+			probeNotOpen(db, "closed")
+			if r2.Chance(40) {
+				// Open on the closed handle: rejected as well (oracle only: the model's re-open stands for a NEW handle)
+				oerr := safely(db.Open)
+				res.Stat("lifecycle:open-on-closed-handle")
+				res.Evaluations++
+				trace = append(trace, "closed.open()="+dbRes(oerr))
+				if oerr == nil {
+					res.Violate(idx, "C01", "lifecycle:open-accepted-on-closed-handle", "Open() after Close() returned nil", strings.Join(trace, " "))
+					dead = true
+					return false
+				}
+			}
+		}
+		flushes++
+		return true
+	}
 
 	if lineage {
 		// oldest table: large live values for the first two keys
 		for i := 0; i < 2 && i < len(keys); i++ {
 			v := bytesRepeat(byte('A'+i), 3000+r.Intn(1500))
 			err := db.PutBytes(keys[i], v)
+			if err != nil && walMode == "direct-sync" {
+				logRejected++
+				noteRejected(keys[i], "val:"+gb(v))
+				res.Stat("op:put:rejected-by-direct-io-log")
+				trace = append(trace, fmt.Sprintf("put(%x,%dB)=%s", keys[i], len(v), dbRes(err)))
+				continue
+			}
 			emit("pb:"+gb(keys[i])+":"+gb(v)+":0", dbRes(err))
 			if err == nil {
 				ref[string(keys[i])] = v
@@ -255,10 +501,27 @@ func dbOne(res *Result, drv *Driver, r *Rng, idx int, tier string) error {
 	if tier == "thorough" && r.Chance(20) {
 		nops = 60 + r.Intn(100)
 	}
-	for op := 0; op < nops && opened; op++ {
+	for op := 0; op < nops && opened && !dead; op++ {
 		k := keys[r.Intn(len(keys))]
 		ctx := lastInternal
-		switch c := r.Intn(100); {
+		c := r.Intn(100)
+		if walSession && r2.Chance(10) {
+			c = 99 // these sessions close and re-open (with another log flavour) more often
+		}
+		if lifecycle && r2.Chance(5) {
+			// Open on the open handle: rejected, nothing changes (oracle only)
+			oerr := safely(db.Open)
+			res.Stat("lifecycle:open-on-open-handle")
+			res.Evaluations++
+			trace = append(trace, "open.open()="+dbRes(oerr))
+			if oerr == nil {
+				res.Violate(idx, "C01", "lifecycle:second-open-accepted", "Open() on an open handle returned nil", strings.Join(trace, " "))
+				dead = true
+				break
+			}
+			readAll("rejected-call")
+		}
+		switch {
 		case c < 38: // put
 			v := genVal()
 			var err error
@@ -269,6 +532,20 @@ func dbOne(res *Result, drv *Driver, r *Rng, idx int, tier string) error {
 				err = db.PutBytes(k, v)
 			}
 			out := dbRes(err)
+			res.Stat("op:put")
+			res.Evaluations++
+			if err != nil && walMode == "direct-sync" && !dbIsNotOpen(err) {
+				// rejected by the log: no effect now or later; the model (whose log accepts everything) is not told
+				logRejected++
+				noteRejected(k, "val:"+gb(v))
+				res.Stat("op:put:rejected-by-direct-io-log")
+				if !errors.Is(err, recordio.DirectIOSyncWriteErr) {
+					res.Stat("op:put:rejected-by-direct-io-log:other-error")
+				}
+				trace = append(trace, fmt.Sprintf("put(%x,%s)=rejected-by-log", k, gb(v)))
+				ctx = "log-rejected-call"
+				break
+			}
 			rot := "0"
 			if err == nil {
 				ref[string(k)] = v
@@ -286,10 +563,8 @@ func dbOne(res *Result, drv *Driver, r *Rng, idx int, tier string) error {
 				emit("pb:"+gb(k)+":"+gb(v)+":"+rot, out)
 			}
 			trace = append(trace, fmt.Sprintf("put(%x,%dB)=%s", k, len(v), out))
-			res.Stat("op:put")
-			res.Evaluations++
 			if out != "ok" {
-				res.Violate(idx, "C01", "valid-put-failed", out, strings.Join(trace, " "))
+				failed("C01", "valid-put-failed", out, err)
 			}
 		case c < 44: // rejected puts: empty / nil key or value through both flavours
 			var kk, vv []byte = k, genVal()
@@ -317,6 +592,8 @@ func dbOne(res *Result, drv *Driver, r *Rng, idx int, tier string) error {
 			res.Evaluations++
 			if !errors.Is(err, simpledb.ErrEmptyKeyValue) {
 				res.Violate(idx, "C17", "empty-put-not-rejected", fmt.Sprintf("Put(%s,%s) = %s", gb(kk), gb(vv), dbRes(err)), strings.Join(trace, " "))
+			} else {
+				noteRejected(kk, "val:"+gb(nonNil(vv)))
 			}
 			ctx = "rejected-call"
 		case c < 58: // delete (sometimes of the empty key: accepted, must delete nothing else)
@@ -325,14 +602,28 @@ func dbOne(res *Result, drv *Driver, r *Rng, idx int, tier string) error {
 				kk = []byte{}
 			}
 			var err error
-			if r.Chance(50) {
+			useStr := r.Chance(50)
+			if useStr {
 				err = db.Delete(string(kk))
-				emit("ds:"+gb(kk), dbRes(err))
 			} else {
 				if len(kk) == 0 && r.Chance(50) {
 					kk = nil
 				}
 				err = db.DeleteBytes(kk)
+			}
+			res.Stat("op:delete")
+			res.Evaluations++
+			if err != nil && walMode == "direct-sync" && !dbIsNotOpen(err) {
+				logRejected++
+				noteRejected(kk, "notfound")
+				res.Stat("op:delete:rejected-by-direct-io-log")
+				trace = append(trace, fmt.Sprintf("del(%s)=rejected-by-log", gb(kk)))
+				ctx = "log-rejected-call"
+				break
+			}
+			if useStr {
+				emit("ds:"+gb(kk), dbRes(err))
+			} else {
 				emit("db:"+gb(kk), dbRes(err))
 			}
 			if err == nil {
@@ -340,18 +631,11 @@ func dbOne(res *Result, drv *Driver, r *Rng, idx int, tier string) error {
 				writes++
 			}
 			trace = append(trace, fmt.Sprintf("del(%s)=%s", gb(kk), dbRes(err)))
-			res.Stat("op:delete")
-			res.Evaluations++
 			if err != nil {
-				res.Violate(idx, "C01", "delete-failed", dbRes(err), strings.Join(trace, " "))
+				failed("C01", "delete-failed", dbRes(err), err)
 			}
 		case c < 68: // forced rotation
-			if err := db.VerifRotate(); err != nil {
-				res.Violate(idx, "C01", "rotate-failed", err.Error(), strings.Join(trace, " "))
-			}
-			emit("rot", "-")
-			flushes++
-			trace = append(trace, "rotate")
+			rotate()
 			res.Stat("op:rotate")
 			lastInternal = "flush"
 			ctx = "flush"
@@ -414,25 +698,14 @@ func dbOne(res *Result, drv *Driver, r *Rng, idx int, tier string) error {
 			lastInternal = "compact"
 			ctx = "compact"
 		default: // close + reopen with other options
-			err := db.Close()
-			emit("close", dbRes(err))
-			res.Evaluations++
-			if err != nil {
-				res.Violate(idx, "C01", "close-failed", err.Error(), strings.Join(trace, " "))
-				opened = false
+			if !closeDb(k) {
 				break
 			}
-			// a closed handle rejects calls
-			if r.Chance(30) {
-				_, gerr := db.Get(string(k))
-				emit("g:"+gb(k), dbRes(gerr))
-				perr := db.Put(string(k), "x")
-				emit("ps:"+gb(k)+":78:0", dbRes(perr))
-			}
-			flushes++
 			opts = genDbOpts(r)
-			opened = false
-			trace = append(trace, "close")
+			if logRejected > 0 {
+				res.Stat("op:reopen:after-log-rejected-calls")
+			}
+			pickWal(false)
 			if err := openDb(); err != nil {
 				return err
 			}
@@ -440,14 +713,40 @@ func dbOne(res *Result, drv *Driver, r *Rng, idx int, tier string) error {
 			lastInternal = "reopen"
 			ctx = "reopen"
 		}
-		if !opened {
+		if !opened || dead {
 			break
+		}
+		if ctx == "log-rejected-call" && r2.Chance(20) {
+			// the rejected call stays without effect when the (unchanged) memstore is rotated and flushed
+			readAll(ctx)
+			rotate()
+			waitFlush()
+			res.Stat("op:rotate+flush:after-log-rejected-call")
+			lastInternal = "flush"
+			ctx = "log-rejected-call+flush"
 		}
 		readAll(ctx)
 	}
-	if opened {
-		if err := db.Close(); err != nil {
-			res.Violate(idx, "C01", "close-failed", err.Error(), strings.Join(trace, " "))
+	if opened && !dead && logRejected > 0 {
+		// sessions with calls rejected by the log end with a clean restart under DEFAULT log options, a rotation and
+		// a flush: the rejected calls stay without effect
+		if closeDb(keys[0]) {
+			walMode = "sync"
+			if err := openDb(); err != nil {
+				return err
+			}
+			if opened {
+				res.Stat("final-reopen-with-default-log:after-log-rejected-calls")
+				readAll("reopen")
+				rotate()
+				waitFlush()
+				readAll("reopen+flush")
+			}
+		}
+	}
+	if opened && !dead {
+		if err := safely(db.Close); err != nil {
+			failed("C01", "close-failed", err.Error(), err)
 		}
 	}
 	cs := strings.Join(steps, ",")
